@@ -1,3 +1,203 @@
 import SwcVerif.Props.C01
-import SwcVerif.Gen.AlgoWriter
-/-! # C01 — the GENERATED writer (stub, filled below) -/
+import SwcVerif.Props.C02Gen
+import SwcVerif.Refine.Writer
+/-! # C01, tied to the source by the imperative translator
+
+`Gen.Algo.to_swc` (+ its closure `to_swc_get_v`) and `Gen.Algo.swclike_to_swc` are regenerated on every run from
+`swcgeom/core/swc_utils/io.py::to_swc` (a generator: the comment loop with `c.isspace()` / `c.lstrip()`, the header line, the nested
+`get_v` with its dtype test, `f"{v:.4f}"`, the offset rule `k == names.id or (k == names.pid and v != -1)`, `str(v)`, the row loop
+`for idx in get_ndata(names.id)` that indexes every column with the VALUE of the id) and from `swcgeom/core/swc.py::SWCLike.to_swc` (the
+`source:` header, `comments is True`, `"".join(it)`).  The only thing left abstract is `fmt4 : F → String`, CPython's `f"{v:.4f}"` of a
+float - exactly what the hand-written model leaves to CPython too.
+
+* `generated_to_swc_spec` / `generated_swclike_spec`: what the generated code computes, for EVERY float type and `fmt4`, every table whose
+  id values are row positions in any order, every offset (negative too), comments absent or given;
+* `generated_lines_eq_model` / `generated_writer_eq_model`: on tables with ids = positions, offsets `≥ 0` and the model's float payload the
+  generated writer IS `SwcText.writeLines` / `SwcText.writeSwc`, character for character;
+* `generated_row_roundtrip`, `generated_table_roundtrip`, `generated_comments_roundtrip`, `generated_roundtrip_reset`: the round-trip
+  theorems of `Props/C01.lean`, now about the text the GENERATED writer returns, read by the hand-written reader model;
+* `generated_write_generated_read`: … and read by the GENERATED read loop of `Gen/AlgoParse.lean` (text level = the model's recogniser). -/
+namespace C01
+open SwcText Gen.Algo RefineWriter Py
+
+/-- **what the generated `io.to_swc` yields** (any float type `F`, any `fmt4`): the comment lines, the header, and one data line per VALUE
+`j` of the id column built from row `j` of every column - for every table with equally long columns whose id values lie in `[0, n)` -/
+theorem generated_to_swc_spec {F : Type} [Inhabited F] (fmt4 : F → String) (get : String → Py.Col F) (T : Tbl F) (n : Nat)
+    (hr : Reads get T) (hn : T.Rect n) (hids : ∀ j ∈ T.ids, 0 ≤ j ∧ j < n) (comments : Option (List String)) (off : Int) :
+    to_swc fmt4 get comments off = some (linesG fmt4 off T (comments.getD []), ()) :=
+  to_swc_refines fmt4 get T n hr hn hids comments off
+
+/-- **what the generated `SWCLike.to_swc` returns**: the concatenation of those lines, the comment list being the optional `source:` header
+(+ an empty comment) followed by the tree's comments if requested -/
+theorem generated_swclike_spec {F : Type} [Inhabited F] (fmt4 : F → String) (get : String → Py.Col F) (T : Tbl F) (n : Nat)
+    (hr : Reads get T) (hn : T.Rect n) (hids : ∀ j ∈ T.ids, 0 ≤ j ∧ j < n) (self : SWCLike) (source : BoolOrStr) (wc : Bool) (off : Int) :
+    swclike_to_swc fmt4 get self source wc off = some (textG fmt4 off T self source wc) :=
+  swclike_to_swc_refines fmt4 get T n hr hn hids self source wc off
+
+variable (get : String → Py.Col WF)
+
+/-- **generated `io.to_swc` = `SwcText.writeLines`** (ids = positions, offset `≥ 0`) -/
+theorem generated_lines_eq_model (rows : List WRow) (hr : Reads get (tblOf rows)) (hpos : Positions rows)
+    (comments : Option (List String)) (off : Nat) :
+    (to_swc mfmt4 get comments (off : Int)).map (fun r => r.1.map String.toList)
+      = some (writeLines off ((comments.getD []).map String.toList) rows) :=
+  to_swc_eq_writeLines get rows hr hpos comments off
+
+/-- **generated `SWCLike.to_swc` = the text of `SwcText.writeSwc`** (ids = positions, offset `≥ 0`, every `source` / `comments` choice) -/
+theorem generated_writer_eq_model (rows : List WRow) (hr : Reads get (tblOf rows)) (hpos : Positions rows)
+    (self : SWCLike) (source : BoolOrStr) (wc : Bool) (off : Nat) :
+    (swclike_to_swc mfmt4 get self source wc (off : Int)).map String.toList
+      = some (writeSwc off (sourceStr self source) wc (self.comments.map String.toList) rows).flatten :=
+  swclike_to_swc_eq_writeSwc get rows hr hpos self source wc off
+
+/-- **row round trip through the generated writer**: the data lines it yields (everything after the comments and the header) classify, in
+order, as the rows of the table with ids and parents shifted by the offset (a root's `-1` kept) and no ignored tail -/
+theorem generated_row_roundtrip (rows : List WRow) (hr : Reads get (tblOf rows)) (hpos : Positions rows)
+    (hp : ∀ w ∈ rows, w.pid = -1 ∨ 0 ≤ w.pid) (comments : Option (List String)) (off : Nat) :
+    ∃ ls, to_swc mfmt4 get comments (off : Int) = some (ls, ()) ∧
+      (ls.drop ((comments.getD []).length + 1)).map (fun l => classify 0 l.toList) = rows.map (fun w => Kind.data (shifted off w) false) := by
+  have h := generated_lines_eq_model get rows hr hpos comments off
+  cases hg : to_swc mfmt4 get comments (off : Int) with
+  | none => rw [hg] at h; cases h
+  | some r =>
+    obtain ⟨ls, u⟩ := r
+    rw [hg] at h
+    simp only [Option.map_some, Option.some.injEq] at h
+    refine ⟨ls, rfl, ?_⟩
+    have h2 : (ls.drop ((comments.getD []).length + 1)).map String.toList = rows.map (formatRow off) := by
+      rw [List.map_drop, h, writeLines]
+      simp [List.drop_append]
+    have : (ls.drop ((comments.getD []).length + 1)).map (fun l => classify 0 l.toList)
+        = ((ls.drop ((comments.getD []).length + 1)).map String.toList).map (classify 0) := by
+      rw [List.map_map]; rfl
+    rw [this, h2, List.map_map]
+    apply List.map_congr_left
+    intro w hw
+    exact row_roundtrip off w (hp w hw)
+
+/-- the source / comment hypotheses of the round trip: no line break inside a comment or the source text -/
+def NoBreaks (self : SWCLike) (source : BoolOrStr) : Prop :=
+  (∀ c ∈ self.comments, '\n' ∉ c.toList) ∧ (∀ s, sourceText self source = some s → '\n' ∉ s.toList)
+
+theorem noBreaks_model (self : SWCLike) (source : BoolOrStr) (h : NoBreaks self source) :
+    (∀ c ∈ self.comments.map String.toList, '\n' ∉ c) ∧ (∀ s, sourceStr self source = some s → '\n' ∉ s) := by
+  constructor
+  · intro c hc
+    simp only [List.mem_map] at hc
+    obtain ⟨c0, h0, rfl⟩ := hc
+    exact h.1 c0 h0
+  · intro s hs
+    simp only [sourceStr, Option.map_eq_some_iff] at hs
+    obtain ⟨s0, h0, rfl⟩ := hs
+    exact h.2 s0 h0
+
+/-- **table round trip through the generated writer.**  For every table with ids = positions, offset `≥ 0`, `source` choice and comment list
+(no line breaks inside): the generated `SWCLike.to_swc` returns a text, and reading that TEXT gives exactly the rows (shifted), no warning,
+and the written comments that are not header-like, in order. -/
+theorem generated_table_roundtrip (rows : List WRow) (hr : Reads get (tblOf rows)) (hpos : Positions rows)
+    (self : SWCLike) (source : BoolOrStr) (wc : Bool) (off : Nat) (hnb : NoBreaks self source)
+    (hp : ∀ w ∈ rows, w.pid = -1 ∨ 0 ≤ w.pid) :
+    ∃ text, swclike_to_swc mfmt4 get self source wc (off : Int) = some text ∧
+      readLines 0 (splitLines text.toList)
+        = .ok ⟨rows.map (shifted off),
+               ((written (sourceStr self source) wc (self.comments.map String.toList)).map readBack).filter keepComment, false⟩ := by
+  have h := generated_writer_eq_model get rows hr hpos self source wc off
+  cases hg : swclike_to_swc mfmt4 get self source wc (off : Int) with
+  | none => rw [hg] at h; cases h
+  | some text =>
+    rw [hg] at h
+    simp only [Option.map_some, Option.some.injEq] at h
+    obtain ⟨hc, hs⟩ := noBreaks_model self source hnb
+    exact ⟨text, rfl, by rw [h]; exact table_roundtrip off _ wc _ rows hc hs hp⟩
+
+/-- **nothing is added to the comments but the optional source header** (generated writer): when no written comment starts with the
+column-header text, the comments come back one for one with the same text, leading blanks aside -/
+theorem generated_comments_roundtrip (rows : List WRow) (hr : Reads get (tblOf rows)) (hpos : Positions rows)
+    (self : SWCLike) (source : BoolOrStr) (wc : Bool) (off : Nat) (hnb : NoBreaks self source)
+    (hp : ∀ w ∈ rows, w.pid = -1 ∨ 0 ≤ w.pid)
+    (hk : ∀ c ∈ written (sourceStr self source) wc (self.comments.map String.toList), keepComment (readBack c) = true) :
+    ∃ text res, swclike_to_swc mfmt4 get self source wc (off : Int) = some text ∧
+      readLines 0 (splitLines text.toList) = .ok res ∧
+      res.comments.map dropWs = (written (sourceStr self source) wc (self.comments.map String.toList)).map dropWs := by
+  have h := generated_writer_eq_model get rows hr hpos self source wc off
+  cases hg : swclike_to_swc mfmt4 get self source wc (off : Int) with
+  | none => rw [hg] at h; cases h
+  | some text =>
+    rw [hg] at h
+    simp only [Option.map_some, Option.some.injEq] at h
+    obtain ⟨hc, hs⟩ := noBreaks_model self source hnb
+    obtain ⟨res, h1, h2⟩ := comments_roundtrip off _ wc _ rows hc hs hp hk
+    exact ⟨text, res, rfl, by rw [h]; exact h1, h2⟩
+
+/-- **the whole round trip, re-based**: for a well-formed table (row 0 the root with id 0, the other parents node ids) the text the generated
+writer returns reads back, after `reset_index_`, as the ORIGINAL ids, parents, types and the coordinates on the 4-decimal grid - every offset -/
+theorem generated_roundtrip_reset (w0 : WRow) (rest : List WRow) (hr : Reads get (tblOf (w0 :: rest))) (hpos : Positions (w0 :: rest))
+    (self : SWCLike) (source : BoolOrStr) (wc : Bool) (off : Nat) (hnb : NoBreaks self source)
+    (h0 : w0.pid = -1) (hp : ∀ w ∈ rest, w.pid = -1 ∨ 0 ≤ w.pid) :
+    ∃ text res, swclike_to_swc mfmt4 get self source wc (off : Int) = some text ∧
+      readLines 0 (splitLines text.toList) = .ok res ∧ resetIndex res.rows = (w0 :: rest).map original := by
+  have hp' : ∀ w ∈ w0 :: rest, w.pid = -1 ∨ 0 ≤ w.pid := by
+    intro w hw
+    simp only [List.mem_cons] at hw
+    rcases hw with rfl | hw
+    · exact Or.inl h0
+    · exact hp w hw
+  obtain ⟨text, h1, h2⟩ := generated_table_roundtrip get (w0 :: rest) hr hpos self source wc off hnb hp'
+  have hid : w0.id = 0 := hpos 0 (by simp)
+  exact ⟨text, _, h1, h2, reset_restores off w0 rest ⟨hid, h0⟩ hp⟩
+
+/-- **generated writer, then the GENERATED read loop** (`Gen.Algo.parse_swc`, text level = the model's recogniser): the loop returns the table
+of the written rows (shifted) column by column, the kept comments, issues no warning and closes the file -/
+theorem generated_write_generated_read (rows : List WRow) (hr : Reads get (tblOf rows)) (hpos : Positions rows)
+    (self : SWCLike) (source : BoolOrStr) (wc : Bool) (off : Nat) (hnb : NoBreaks self source)
+    (hp : ∀ w ∈ rows, w.pid = -1 ∨ 0 ≤ w.pid) (cols : List String) (hc : cols.length = 7) (reader : FileReader) :
+    ∃ text, swclike_to_swc mfmt4 get self source wc (off : Int) = some text ∧
+      parse_swc (C02.mRowOf 0) C02.mCommentOf C02.mIsHeader C02.mBlank cols [] reader ⟨splitLines text.toList, none⟩
+        = some ([], RefineParse.closeReader reader,
+            .ok (C02.tableOf cols [] ((rows.map (shifted off)).map C02.fieldsOf),
+                 ((written (sourceStr self source) wc (self.comments.map String.toList)).map readBack).filter keepComment)) := by
+  obtain ⟨text, h1, h2⟩ := generated_table_roundtrip get rows hr hpos self source wc off hnb hp
+  refine ⟨text, h1, ?_⟩
+  have hw := ((C02.read_ok_iff 0 _ _).1 h2).2.2.2
+  simp only at hw
+  have hany : (splitLines text.toList).any (RefineParse.tailAt (C02.mRowOf 0)) = false := by
+    rw [hw]; congr 1; funext l; exact (C02.line_agrees 0 l).2.2.2
+  have hft : RefineParse.firstTail (C02.mRowOf 0) (splitLines text.toList) 0 = none := by
+    have := RefineParse.firstTail_isSome (C02.mRowOf 0) (splitLines text.toList) 0
+    rw [hany] at this
+    cases hq : RefineParse.firstTail (C02.mRowOf 0) (splitLines text.toList) 0 with
+    | none => rfl
+    | some q => rw [hq] at this; cases this
+  apply (C02.generated_ok_iff_model 0 cols [] hc rfl reader _ _ _ _ _).2
+  exact ⟨_, h2, rfl, rfl, by rw [hft], by simp, rfl⟩
+
+/-! non-vacuity (kernel-evaluated): the generated definitions run on a concrete table -/
+section
+def exGet : String → Py.Col WF := fun k =>
+  if k = "id" then .ints [0, 1] else if k = "type" then .ints [1, 3] else if k = "pid" then .ints [-1, 0]
+  else if k = "x" then .flts [(false, 0), (true, 250001)] else if k = "y" then .flts [(true, 0), (false, 5)]
+  else if k = "z" then .flts [(false, 12345), (false, 0)] else if k = "r" then .flts [(false, 10000), (false, 2500)] else .ints []
+
+example : Reads exGet (tblOf exRows) ∧ Positions exRows := by
+  refine ⟨⟨rfl, rfl, rfl, rfl, rfl, rfl, rfl⟩, ?_⟩
+  intro k h
+  have : k < 2 := h
+  match k, this with
+  | 0, _ => rfl
+  | 1, _ => rfl
+
+example : swclike_to_swc mfmt4 exGet ⟨"", ["  hello", " "]⟩ (.bool false) true 7
+    = some "# hello\n#\n# id type x y z r pid\n7 1 0.0000 -0.0000 1.2345 1.0000 -1\n8 3 -25.0001 0.0005 0.0000 0.2500 7\n" := by
+  decide +kernel
+example : swclike_to_swc mfmt4 exGet ⟨"", []⟩ (.bool true) false 0
+    = some "# source: Unknown\n# \n# id type x y z r pid\n0 1 0.0000 -0.0000 1.2345 1.0000 -1\n1 3 -25.0001 0.0005 0.0000 0.2500 0\n" := by
+  decide +kernel
+/-- the quirk: the id VALUES index the rows - a reversed id column writes the rows in reverse order, each with the id found at that position -/
+example : (to_swc mfmt4 (fun k => if k = "id" then .ints [1, 0] else exGet k) none (-1)).map (·.1)
+    = some ["# id type x y z r pid\n", "-1 3 -25.0001 0.0005 0.0000 0.2500 -1\n", "0 1 0.0000 -0.0000 1.2345 1.0000 -1\n"] := by
+  decide +kernel
+/-- … and an id outside the table raises (IndexError) -/
+example : to_swc mfmt4 (fun k => if k = "id" then .ints [0, 2] else exGet k) none 1 = none := by decide +kernel
+end
+
+end C01
